@@ -311,14 +311,20 @@ std::vector<ValueFlow::Value> infer(const ValuePtr<InferModel>& model,
             setValueKind(value, refs);
             result.push_back(std::move(value));
         } else {
-            if (!diff.minvalue.empty()) {
+            // An impossible bound is a claim about every execution: only derive it from bounds that are claims themselves
+            const auto isClaim = [](const std::vector<const ValueFlow::Value*>& refs) {
+                return std::none_of(refs.cbegin(), refs.cend(), [](const ValueFlow::Value* ref) {
+                    return ref->isPossible() || ref->isInconclusive();
+                });
+            };
+            if (!diff.minvalue.empty() && isClaim(diff.minRef)) {
                 ValueFlow::Value value(diff.minvalue.front() - 1);
                 value.setImpossible();
                 value.bound = ValueFlow::Value::Bound::Upper;
                 addToErrorPath(value, diff.minRef);
                 result.push_back(std::move(value));
             }
-            if (!diff.maxvalue.empty()) {
+            if (!diff.maxvalue.empty() && isClaim(diff.maxRef)) {
                 ValueFlow::Value value(diff.maxvalue.front() + 1);
                 value.setImpossible();
                 value.bound = ValueFlow::Value::Bound::Lower;
